@@ -76,3 +76,66 @@ func VerifH_C15_Metadata(mode, w, h, meta, mlen int) {
 		verifapi.Assert(pf.Width == w && pf.Height == h, "dimensions unchanged by metadata")
 	}
 }
+
+// VerifH_C15_MetadataRC: the same independence with every non-metadata option symbolic (documented-valid),
+// in particular with rate control on (TargetSize 1..4000 when rc==1): the work the codecs are asked to do and
+// the embedded bitstream do not depend on the presence or size of metadata. Native replay repeats the
+// comparison on the 48x40 picture with the blobs grown to 1500 bytes.
+func VerifH_C15_MetadataRC(mode, meta, rc int) {
+	vGlueInit()
+	am := 0
+	if mode == 1 || mode == 3 {
+		am = 1
+	}
+	img := vSymImage(2, 1, am)
+	if mode == 1 {
+		verifapi.Assume(img.Pix[3] != 255)
+	}
+	base := vSymOptions(75, 0)
+	base.Lossless = mode >= 2
+	verifapi.Assume(vDocumentedValid(base))
+	if rc == 1 {
+		verifapi.Assume(base.TargetSize >= 1 && base.TargetSize <= 4000)
+	}
+	with := *base
+	if meta&1 != 0 {
+		with.ICC = verifapi.Bytes("icc", 2)
+	}
+	if meta&2 != 0 {
+		with.EXIF = verifapi.Bytes("exif", 2)
+	}
+	if meta&4 != 0 {
+		with.XMP = verifapi.Bytes("xmp", 2)
+	}
+	o1, o2 := &vBuf{}, &vBuf{}
+	err1 := Encode(o1, img, &with)
+	c1 := vTakeCalls()
+	err2 := Encode(o2, img, base)
+	c2 := vTakeCalls()
+	verifapi.Assert(err1 == nil && err2 == nil, "Encode succeeds")
+	verifapi.Cover(true, "comparison reached")
+	verifapi.Candidate(!verifapi.Symbolic() || vSameCalls(c1, c2), "metadata does not change what the codecs are asked to encode (all options symbolic)")
+	s1, s2 := vParseStill(o1.b), vParseStill(o2.b)
+	verifapi.Assert(s1.ok && s2.ok, "both outputs are well-formed stills")
+	verifapi.Assert(bytes.Equal(s1.img, s2.img) && s1.imgTag == s2.imgTag, "embedded image bitstream identical with and without metadata")
+	verifapi.Assert(bytes.Equal(s1.alph, s2.alph) && s1.hasALPH == s2.hasALPH, "alpha payload identical with and without metadata")
+	if !verifapi.Symbolic() {
+		big := with
+		grow := func(b []byte) []byte {
+			if len(b) == 0 {
+				return b
+			}
+			g := make([]byte, 1500)
+			copy(g, b)
+			return g
+		}
+		big.ICC, big.EXIF, big.XMP = grow(with.ICC), grow(with.EXIF), grow(with.XMP)
+		rich := vRichImage(am)
+		r1, r2 := &vBuf{}, &vBuf{}
+		e1 := Encode(r1, rich, &big)
+		e2 := Encode(r2, rich, base)
+		t1, t2 := vParseStill(r1.b), vParseStill(r2.b)
+		verifapi.Assert(e1 == nil && e2 == nil && t1.ok && t2.ok, "48x40 picture encodes with and without 1500-byte blobs")
+		verifapi.Assert(bytes.Equal(t1.img, t2.img) && t1.imgTag == t2.imgTag && bytes.Equal(t1.alph, t2.alph), "48x40 picture: embedded bitstream and alpha identical with and without metadata (native replay)")
+	}
+}
